@@ -26,7 +26,8 @@ LEVEL_TEXT = ("The decision function is compared with the library's own version 
               " Also strings the library's own format validator accepts although they are not plain ASCII dates (other Unicode digits, trailing line breaks, other dashes): decision and ordering must agree on them."
               ' Also a re-entered client whose second handshake settles on the same version as the first.'
               ' Also a batch rejected while a message of several pipe buffers is being written to the child (both lines must stay whole), odd version strings, re-entry under the same version.'
-              " Also a connection on which nothing is negotiated, opened (directly, as a client object, from a spawned task) inside each handshake wrapper's open block.")
+              " Also a connection on which nothing is negotiated, opened (directly, as a client object, from a spawned task) inside each handshake wrapper's open block."
+              ' Also the first batch written by the server the moment it reads notifications/initialized (and 1-100 ms later), through every handshake wrapper.')
 LEVEL_NOTE = ("Trusted: ScriptedProcess stand-in for anyio.open_process (the OS pipe is covered by C05's real-child tier); "
               "the reference validator in vf/ref.py decides which batch members are valid.")
 RULE = ("A: version strings (year x month x day grid); B: (version schedule, batch members). Non-trivial A: string parses; "
@@ -288,6 +289,15 @@ def exec_wrapper_handshake(ctx, case: Dict[str, Any]) -> None:
                 if o.get("method") == "initialize":
                     p.feed((json.dumps({"jsonrpc": "2.0", "id": o["id"], "result": {
                         "protocolVersion": hv, "capabilities": {}, "serverInfo": {"name": "s", "version": "1"}}}) + "\n").encode())
+                if o.get("method") == "notifications/initialized" and case.get("batch_on_initialized") is not None:
+                    # the server writes its first batch the moment it has read the initialized notification (the handshake
+                    # is complete on both sides), or a few milliseconds later
+                    line_ = (json.dumps([MEMBERS[k] for k in members]) + "\n").encode()
+                    d_ = case["batch_on_initialized"]
+                    if d_ == 0:
+                        p.feed(line_)
+                    else:
+                        asyncio.get_running_loop().call_later(d_, p.feed, line_)
         p.stdin.send = send
         return p
 
@@ -333,7 +343,10 @@ def exec_wrapper_handshake(ctx, case: Dict[str, Any]) -> None:
                 if case.get("inner"):
                     await inner_connection()
                 proc = patch.spawned[0]
-                proc.feed((json.dumps([MEMBERS[k] for k in members]) + "\n").encode())
+                if case.get("batch_on_initialized") is not None:
+                    await asyncio.sleep(0.2)     # (the batch was written by the server itself, see the factory)
+                else:
+                    proc.feed((json.dumps([MEMBERS[k] for k in members]) + "\n").encode())
                 proc.feed((json.dumps(MEMBERS["note"]) + "\n").encode())
                 await asyncio.sleep(0.01)
                 while True:
@@ -705,6 +718,10 @@ def run(ctx):
         for hv in ("2024-11-05", "2025-03-26", "2025-06-18") + (tuple(OFFERED_ONLY) if variant == "with_initialize" else ()):
             for b in (["req", "note"], ["resp", "bad_obj"], []):
                 case = {"handshake": hv, "variant": variant, "batch": b}
+                if ctx.mine():
+                    exec_wrapper_handshake(ctx, case)
+            for d_ in (0, 0.001, 0.01, 0.04, 0.1):
+                case = {"handshake": hv, "variant": variant, "batch": ["req", "note", "resp"], "batch_on_initialized": d_}
                 if ctx.mine():
                     exec_wrapper_handshake(ctx, case)
             if hv in ("2025-03-26", "2025-06-18"):
